@@ -436,10 +436,69 @@ pub fn run(ctx: &Ctx) -> CheckResult {
         });
         res.absorb(merge_jobs(outs));
     }
+    // long horizon: the flat stretch arrives after 2^22+4096 inputs on the same instance (periodic maintenance
+    // code - "rebuild the moments every 2^22 updates" - has run by then)
+    if !res.out.failed() {
+        let h = super::refcmp::horizon_len(th);
+        let ws = super::refcmp::tick_walk(h, ctx.seed ^ 0x88, false, true, false);
+        let wb = super::refcmp::tick_walk(h, ctx.seed ^ 0x88, true, true, false);
+        let hz: Vec<Cfg> = vec![Cfg::p1(Kind::Sd, 20), Cfg::pm(Kind::Bb, 20, 2.0), Cfg::p1(Kind::Mad, 20), Cfg::p1(Kind::Sma, 20), Cfg::p1(Kind::Wma, 9), Cfg::p1(Kind::FastStoch, 14), Cfg::p1(Kind::Cci, 20), Cfg::p1(Kind::Roc, 10), Cfg::p1(Kind::Er, 10), Cfg::p1(Kind::Mfi, 14), Cfg::p2(Kind::SlowStoch, 14, 3)];
+        let outs = par_run(ctx, &hz, |_, cfg| {
+            let mut out = JobOut::default();
+            let n = cfg.max_period();
+            for (st, w) in plan(cfg) {
+                if !matches!(st, Stretch::Scalar | Stretch::OnePriceBar) {
+                    continue;
+                }
+                let pre: &[Op] = if st == Stretch::Scalar { &ws[..] } else { &wb[..] };
+                let stretch_len = 2 * n + 3;
+                let levels = [10.25, 1e6];
+                let r = std::panic::catch_unwind(std::panic::AssertUnwindSafe(|| {
+                    let mut s = make(cfg);
+                    for op in pre.iter() {
+                        s.apply(op);
+                    }
+                    levels.iter().map(|&level| {
+                        let mut c = s.dup();
+                        (0..stretch_len).map(|j| c.apply(&stretch_op(st, level, j))).collect::<Vec<Out>>()
+                    }).collect::<Vec<Vec<Out>>>()
+                }));
+                out.stats.traces += 1;
+                out.stats.states += 2;
+                out.stats.transitions += (pre.len() + 2 * stretch_len) as u64;
+                let res = match r {
+                    Ok(x) => x,
+                    Err(_) => {
+                        out.fail(Violation::new(PROP, cfg, &pre[h - 64..], "panic").obs("panic".into()).exp("a finite value".into()));
+                        return out;
+                    }
+                };
+                for (li, &level) in levels.iter().enumerate() {
+                    let m = pre.iter().map(|o| o.maxmag()).fold(0.0, f64::max).max(level);
+                    for j in 0..stretch_len {
+                        if j + 1 < w {
+                            continue;
+                        }
+                        out.stats.evaluations += 1;
+                        out.stats.nontrivial += 1;
+                        if let Err((class, exp)) = check_step(cfg, st, pre.len() + j + 1, m, &res[li][j]) {
+                            let mut ops: Vec<Op> = pre[h - 64..].to_vec();
+                            ops.extend((0..=j).map(|i| stretch_op(st, level, i)));
+                            out.fail(Violation::new(PROP, cfg, &ops, &class).obs(out2s(&res[li][j])).exp(exp).det(format!("{:?} stretch at level {} : step {} of the stretch after a tick-grid walk of {} inputs on the same instance (window degenerate); ops shown = the last 64 inputs of the walk and the stretch", st, level, j + 1, pre.len())));
+                            return out;
+                        }
+                    }
+                }
+            }
+            out
+        });
+        res.extra.insert("long_horizon_steps".into(), json!(h));
+        res.absorb(merge_jobs(outs));
+    }
     res.extra.insert("configurations".into(), json!(jobs.len()));
     res.rule = "case = (configuration, active prefix, stretch kind, flat level, step of the stretch); the real output at every step whose reference window is degenerate (min(t,w) trailing inputs flat / zero-flow) must be finite, inside the documented range, and equal the documented neutral value where one is defined; non-trivial = non-empty active prefix".into();
     res.bounds = format!(
-        "all 22 indicators, periods 1..8; every active prefix over {{2, 0.3, 1e6, 7.7, 1e9}} up to depth {}, reset() being one of the prefix symbols, prefixes of length <= 1 also followed by a serde round trip / clone, and each prefix also fed through the other input path (bars before a scalar stretch and vice versa) (exponential-memory kinds at periods 1..3: {}), levels {{1, 0.1, 0.7, 3.3, 1e6, -1, -3.3}} (and 1e200, 1e-200, 1e300 for streams flat from the start), stretch kinds scalar / one-price bar / both alternating on one instance / zeros of both signs / same bar (CCI, MFI) / zero volume (MFI, OBV), every stretch length 1..{} ({} for exponential-memory kinds{}); periods 9, 14, 20, 33 after tick-grid walks of 3n..3n+3 inputs; level sweep for periods 1..3: all two-decimal prices 0.01..20.00 and 2000 log-uniform levels in [1e-3, 1e6]",
+        "all 22 indicators, periods 1..8; every active prefix over {{2, 0.3, 1e6, 7.7, 1e9}} up to depth {}, reset() being one of the prefix symbols, prefixes of length <= 1 also followed by a serde round trip / clone, and each prefix also fed through the other input path (bars before a scalar stretch and vice versa) (exponential-memory kinds at periods 1..3: {}), levels {{1, 0.1, 0.7, 3.3, 1e6, -1, -3.3}} (and 1e200, 1e-200, 1e300 for streams flat from the start), stretch kinds scalar / one-price bar / both alternating on one instance / zeros of both signs / same bar (CCI, MFI) / zero volume (MFI, OBV), every stretch length 1..{} ({} for exponential-memory kinds{}); periods 9, 14, 20, 33 after tick-grid walks of 3n..3n+3 inputs; flat stretches after a tick-grid walk of 2^22+4096 (2^23+4096) inputs on one instance; level sweep for periods 1..3: all two-decimal prices 0.01..20.00 and 2000 log-uniform levels in [1e-3, 1e6]",
         4,
         3,
         if th { 600 } else { 64 },
